@@ -40,6 +40,11 @@ CHECKS = {
    text="Seeded search over include-heavy projects with hostile parameters (path alphabet of ~45 entries: '..', '.', absolute, backslash, quoted, dot-files, empty, long, non-ASCII), decoys outside the project, repeats/diamonds/static cycles, and faults that change the graph mid-build (target vanishes or becomes a directory between stat and read, file replaced between two INCLUDEs, cycle created after the first read). Because the instrumenter mediates by type, a file-system call that a change ADDS is seen too.",
    note="Trusted: instrumenter completeness for os / io/ioutil / path/filepath entry points (others - syscall, os.File methods on a descriptor obtained elsewhere - are not mediated), reference model. The model abstains where the property is silent (second parameter, annotation, empty name).",
    ref="4.2"),
+ "C18": dict(
+   technique="deterministic simulation under the race detector: 2-4 tasks are real goroutines of which exactly one is runnable, a seeded scheduler decides at every sync / pool / file-access site who runs next (uniform, sticky, PCT, k-preemption strategies); hand-offs use mmap'd mailboxes and the raw futex syscall, which ThreadSanitizer does not see, so the detector observes exactly the synchronisation the code performs itself; sync.Pool is simulated (isolating / adversarial / random reuse); results are compared with sequential references; deadlocks are detected from the simulated lock/once tables",
+   text="Seeded search over (projects, task programs, scenario independent/shared/mixed/cold-start, schedule, pool policy). One seed is one schedule: a violation is replayed from its recorded decision log, minimised (fewer tasks, fewer operations, fewer context switches) and attributed. Races that a free-running -race test sees one time in n are produced on demand and with the two stacks; wrong results caused by cross-task reuse of pooled buffers are produced deterministically by the adversarial pool policy.",
+   note="Trusted: simrt scheduler (lock/once/waitgroup enabledness model), the invisibility of mmap+futex hand-offs to ThreadSanitizer (validated: an unlocked shared++ is reported, a locked one is not), instrumenter. Race detection itself is best-effort inside ThreadSanitizer; result comparison is exact. Known finding (dependency's BufferPool escape) is attributed per violation by replaying the schedule in fresh processes with only the dependency's pools isolating.",
+   ref="4.6"),
  "C06": dict(
    technique="deterministic simulation: the same project observed under R seeded environments (permuted map iteration order per instrumented site, prior builds in the process, a fresh OS process, pool policy, ambient values); all observations must be byte-identical; culprit map site named by differential re-execution",
    text="Seeded search over projects (valid, multi-defect, corpus, byte-corrupted before the build) x environments. The map-order seam turns Go's per-iteration randomisation into a seeded, replayable choice, so an order dependence is found in one run and attributed to its site instead of showing up one time in n.",
